@@ -115,6 +115,9 @@ func JS(ops []Op) string {
 			// (extended interpreter) the matcher is handed a value nested a million deep: every recursive reader of it
 			// (the JSON encoder first) would exhaust the stack, which ends the process
 			b.WriteString("var d__ = []; for (var i__ = 0; i__ < 1000000; i__++) { d__ = [d__]; } _.match(d__, {}, {});\n")
+		case "retgetterbad":
+			// a returned object whose getter throws a value that cannot be rendered (its toString throws it again)
+			b.WriteString("var bad__ = {toString: function() { throw bad__; }}; var r__ = {}; Object.defineProperty(r__, \"x\", {enumerable: true, get: function() { throw bad__; }}); return r__;\n")
 		case "retnan":
 			// a number that is not JSON (the state could not be written out)
 			b.WriteString("_.bindings[\"k\"] = [1, {\"x\": 0 / 0}]; return _.bindings;\n")
@@ -185,7 +188,7 @@ func Native(ops []Op, partial bool) func(context.Context, match.Bindings, core.S
 					exe.Bs = nil
 					return exe, nil
 				}
-			case "throw", "emitbad", "retgetter", "throwobj":
+			case "throw", "emitbad", "retgetter", "throwobj", "retgetterbad":
 				return fail(errBoom)
 			case "retscalar", "retcyclic", "retcyclicobj", "retnan", "matchdeep":
 				return fail(errors.New("42 (int64) isn't Bindings (native)"))
